@@ -166,6 +166,32 @@ theorem consistent_after {env : Env α} {hasOcc : Bool} {g g' : CState α} (hc :
       | cons _ _ => rw [hmv] at this; cases this
   · simp [hid]
 
+/-- `SingleActiveCellOccupancy.initialize` records no active unit -/
+theorem init_active (cap : Int) (units : List Occ.UnitIn) :
+    (Occ.init cap units).activeId = none ∧ (Occ.init cap units).activeCell = none := by
+  have key : ∀ (units : List Occ.UnitIn) (s : Occ.State),
+      (units.foldl (fun s u => if u.relevant then Occ.insert s u.cell u.id else s) s).activeId = s.activeId ∧
+      (units.foldl (fun s u => if u.relevant then Occ.insert s u.cell u.id else s) s).activeCell = s.activeCell := by
+    intro units
+    induction units with
+    | nil => intro s; exact ⟨rfl, rfl⟩
+    | cons u t ih =>
+      intro s
+      simp only [List.foldl_cons]
+      obtain ⟨h1, h2⟩ := ih (if u.relevant then Occ.insert s u.cell u.id else s)
+      rw [h1, h2]
+      split
+      · exact insert_active s u.cell u.id
+      · exact ⟨rfl, rfl⟩
+  exact key units (Occ.State.empty cap)
+
+/-- the state before the start-of-run event (nothing moves, the occupancy freshly initialised) is consistent; with
+`consistent_after` every state of a run that starts there is -/
+theorem consistent_at_rest (env : Env α) (hasOcc : Bool) (us : List (PUnit α)) (cap : Int) (units : List Occ.UnitIn)
+    (h : movers us = []) : Consistent env hasOcc ⟨us, Occ.init cap units⟩ := by
+  intro _
+  simp [h, expectedActive, (init_active cap units).1, (init_active cap units).2]
+
 /-! ### the cell taggers after a commit that is quiet on the identity -/
 
 /-- a commit that keeps the active unit: the occupancy either is unchanged except for `_active_cell`, or is unchanged -/
@@ -230,6 +256,14 @@ theorem occ_quiet {env : Env α} {g g' : CState α} (hc : Consistent env true g)
   · exact h.2.2
 
 end
+
+/-- the global state after a commit is the one committed -/
+theorem commit_g {G : Type} {w : Wires} {W : World G} {rs rs' : RS G} {E : TaggerIdx} {g' : G}
+    (e : commit w W rs E g' = some rs') : rs'.g = g' := by
+  unfold commit at e
+  split at e
+  · cases e
+  · injection e with e; subst e; rfl
 
 /-! ### the world -/
 
